@@ -2,7 +2,7 @@
 (* Behaviour generator for C17 (spec -> code).  For every program of the file PROGS it walks the     *)
 (* pass-structured schedule of the driver (control calls; tick; completions; deliveries of what was    *)
 (* queued before the pass) and enumerates (BFS) or samples (-simulate) the control scripts: at every    *)
-(* pass no call, one call, or two calls back to back on the root - only calls that change the state     *)
+(* pass no call or one, two or three calls back to back on the root - only calls that change the state     *)
 (* (a pause on an idle tree is legal but boring).  Each behaviour is printed as                        *)
 (*   BEH {"p": program index, "s": [script entry per pass]}                                            *)
 (* and executed by harness/c17_flow/driver.cpp on the real tree; the recorded trace is then validated  *)
@@ -34,7 +34,13 @@ PassTwo == \E a, b \in Ops :
              /\ nctl + 1 < MaxCtl /\ a # b /\ Eff(S, a) /\ Eff(ApplyS(S, a), b)
              /\ S' = RestOfPass(ApplyS(ApplyS(S, a), b)) /\ hist' = Append(hist, a \o "+" \o b) /\ nctl' = nctl + 2
              /\ lastop' = b /\ UNCHANGED <<prog, pid>>
-GNext == PassNone \/ PassOne \/ PassTwo
+PassThree == \E a, b, c \in Ops :
+             /\ nctl + 2 < MaxCtl /\ a # b /\ b # c
+             /\ Eff(S, a) /\ Eff(ApplyS(S, a), b) /\ Eff(ApplyS(ApplyS(S, a), b), c)
+             /\ S' = RestOfPass(ApplyS(ApplyS(ApplyS(S, a), b), c))
+             /\ hist' = Append(hist, a \o "+" \o b \o "+" \o c) /\ nctl' = nctl + 3
+             /\ lastop' = c /\ UNCHANGED <<prog, pid>>
+GNext == PassNone \/ PassOne \/ PassTwo \/ PassThree
 GSpec == GInit /\ [][GNext]_gvars
 Emit2 == IF Len(hist) >= MaxPass THEN PrintT("BEH " \o ToJson([p |-> pid, s |-> hist])) /\ FALSE ELSE TRUE
 =============================================================================
